@@ -184,6 +184,9 @@ Definition binn_type_jbv (t : Z) : Z :=
 
 Definition jbl_type (b : bval) : Z := binn_type_jbv (bt b).
 Definition jbl_count (b : bval) : Z := bcount b.
+(* jbl_size: bn.size, the size field of the header (of a document whose header has been written: a read-only document, or a
+   writable one after binn_save_header; see notes/jbinn.md for the stale value the library reports before that) *)
+Definition jbl_size (b : bval) : Z := bsize b.
 
 (* the type tag of a tree node *)
 Definition jval_type (v : jval) : Z :=
